@@ -93,8 +93,24 @@ class Pair(tuple):
     pass
 
 
+class BadGetattribute:
+    """EVERY attribute access on an instance raises (not an AttributeError): also __class__, __dict__"""
+
+    def __getattribute__(self, item):
+        raise RuntimeError("no attribute access: %s" % item)
+
+
+class OddArgsError(Exception):
+    """an exception class whose `args` is not a sequence"""
+    args = None
+
+
 def hostile(rng):
-    k = rng.randrange(19)
+    k = rng.randrange(21)
+    if k == 19:
+        return BadGetattribute()
+    if k == 20:
+        return OddArgsError.__new__(OddArgsError)
     if k == 16:
         return rng.choice([Point(1, 2), Token("secret"), Pair((1, 2)), Point("a", [1])])
     if k == 17:
@@ -293,9 +309,13 @@ class Heap:
             elif tname in LIST_LIKE:
                 rec["kind"] = "seq"
                 kids = [(None, x) for x in tuple(o)]
-            elif isinstance(o, Exception):
+            elif issubclass(type(o), Exception):
                 rec["kind"] = "seq"
-                kids = [(None, x) for x in o.args]
+                try:
+                    args = o.args if isinstance(o.args, (tuple, list)) else ()
+                except Exception:
+                    args = ()
+                kids = [(None, x) for x in args]
             else:
                 try:
                     d = o.__dict__
